@@ -348,6 +348,8 @@ class HSM2Protocol:
             and len(message) == 3
             and has_nonempty_hex_field(message, "tx")
             and has_field_of_type(message, "input", int)
+            and message["input"] >= 0
+            and message["input"] <= 0xffffffff
             and has_field_of_type(message, "sighashComputationMode", str)
             and message["sighashComputationMode"] == "legacy"
         ):
@@ -359,6 +361,8 @@ class HSM2Protocol:
             and len(message) == 5
             and has_nonempty_hex_field(message, "tx")
             and has_field_of_type(message, "input", int)
+            and message["input"] >= 0
+            and message["input"] <= 0xffffffff
             and has_field_of_type(message, "sighashComputationMode", str)
             and message["sighashComputationMode"] == "segwit"
             and has_nonempty_hex_field(message, "witnessScript")
